@@ -10,7 +10,7 @@ CONSTANTS
   SubCfgs <- mcSubCfgs
   MsgKinds <- mcMsgKinds
   BatchMax <- mcBatchMax
-  MaxMsgs = 2
+  MaxMsgs = 1
   MaxTopics = 3
   MaxSubs = 4
   MaxDels = 4
